@@ -6,7 +6,7 @@
 From Coq Require Import List NArith ZArith Lia.
 From Coq.Strings Require Import Byte.
 Import ListNotations.
-From BWLexer Require Import Utf8 Unicode Lexer LexerProofs Utf8Proofs CaseProofs PrintedProofs WsProofs WsSim WsMain.
+From BWLexer Require Import Utf8 Unicode Lexer LexerProofs Utf8Proofs CaseProofs PrintedProofs WsProofs WsSim WsMain WsIns.
 From BWLexer.Gen Require Import LexTablesGen.
 
 (* ---------------------------------------------------------------- termination / channel closed *)
@@ -338,7 +338,46 @@ Example C16_whitespace_replace_example :
   exists pre t post, lex ([x73;x65;x6c;x65;x63;x74] ++ [x20] ++ [x3f;x78;x3b]) = pre ++ t :: post /\ post <> [] /\ tk_end t = 6.
 Proof. split; [vm_compute; reflexivity|]. exists [], (ItemQuery, 0, 6). eexists. split; [vm_compute; reflexivity|]. split; [discriminate|reflexivity]. Qed.
 
-(* REFUTED as stated in the property (insertion between ANY two adjacent tokens): a filter function name is only
+(* (C) INSERTING non-empty ASCII white space ws between two adjacent tokens: if in the lexing of  xb ++ bb  a non-empty,
+   non-final token t ends exactly at |xb|, then the lexing of  xb ++ ws ++ bb  consists of the same tokens up to and
+   including t, followed by the remaining tokens moved by |ws| (same kinds, lengths and texts, C16_whitespace_text).
+   PARTIAL, the domain excludes:
+   - t a filter function name (refuted: C16_whitespace_insert_refuted), t a Time or a PredicateBound (lexTime and
+     lexPredicateGlobalTime make the white-space rune part of the token text; quoted predicate bounds share the kind);
+   - a `"@[` or `"^^type:` delimiter that starts in xb and is completed by bb (no non-empty suffix of xb is a proper prefix of
+     one of the two strings; e.g. any xb without double quote, or ending in a complete token);
+   - bb starting in the middle of a UTF-8 sequence (its first byte must be ASCII, as for every BQL token). *)
+Theorem C16_whitespace_insert_partial : forall (U : uni), ascii_ok U ->
+  forall (xb ws bb : list byte),
+    Forall (fun b => (9 <= bz b <= 13)%Z \/ bz b = 32%Z) ws -> ws <> [] ->
+    match bb with [] => True | a :: _ => (bz a < 128)%Z end ->
+    (forall pat, pat = map bz s_anchor \/ pat = map bz s_literalType ->
+       forall P S pat', map fst (decode_all xb) = P ++ S -> S <> [] -> pat = S ++ pat' -> pat' = []) ->
+  forall (pre : list token) (t : token) (post : list token),
+    fst (lex_with U (xb ++ bb)) = pre ++ t :: post -> post <> [] -> tk_end t = length xb -> tk_start t < tk_end t ->
+    ~ (tk_kind t = ItemFilterFunction \/ tk_kind t = ItemTime \/ tk_kind t = ItemPredicateBound) ->
+    fst (lex_with U (xb ++ ws ++ bb)) =
+      pre ++ t :: map (fun u => (tk_kind u, tk_start u + length ws, tk_end u + length ws)) post.
+Proof. exact ws_insert_bytes. Qed.
+Print Assumptions C16_whitespace_insert_partial.
+
+(* the domain is inhabited:  ?x,?y  ->  ?x<SP><TAB>,?y  *)
+Example C16_whitespace_insert_example :
+  fst (lex_with go_uni ([x3f;x78] ++ [x20;x09] ++ [x2c;x3f;x79])) =
+  [(ItemBinding, 0, 2); (ItemComma, 4, 5); (ItemBinding, 5, 7); (ItemEOF, 7, 7)].
+Proof.
+  apply (C16_whitespace_insert_partial go_uni C16_go_uni_ascii_ok [x3f;x78] [x20;x09] [x2c;x3f;x79]
+           ltac:(repeat constructor; vm_compute; intuition congruence) ltac:(discriminate) ltac:(reflexivity)
+           (no_quote_no_partial (map fst (decode_all [x3f;x78])) ltac:(vm_compute; repeat constructor; congruence))
+           [] (ItemBinding, 0, 2) [(ItemComma, 2, 3); (ItemBinding, 3, 5); (ItemEOF, 5, 5)]).
+  - vm_compute. reflexivity.
+  - discriminate.
+  - reflexivity.
+  - cbn. lia.
+  - intros [H|[H|H]]; discriminate H.
+Qed.
+
+(* REFUTED as stated in the property (insertion between ANY two adjacent tokens), hence the kind restriction above: a filter function name is only
    emitted by lexFilterFunction when '(' follows immediately; with white space in between it ends in an Error token.
    ( "filter l(" versus "filter l (" ).  Listed finding C16-ws-filter-function; the fix is rejected by
    bql/grammar TestRejectByParse, which pins this behaviour. *)
